@@ -8,3 +8,4 @@ import Woodpile.Props.C07
 import Woodpile.Model.IovecOps
 import Woodpile.Proofs.IovecOwn
 import Woodpile.Props.C05
+import Woodpile.Props.C10
